@@ -317,12 +317,12 @@ PROPS = {
         'assumptions': ['H and totals < 2^63 (the unsigned difference after-before does not wrap onto the dividend)'],
     },
     'C07': {
-        'lean_targets': ['Cqos.Props.C07', 'Cqos.Props.C07p', 'Cqos.Props.C01s', 'Cqos.Facts.GluePrioV2', 'Cqos.Facts.GluePrioV1'],
+        'lean_targets': ['Cqos.Props.C07', 'Cqos.Props.C07p', 'Cqos.Props.C01s', 'Cqos.Facts.GluePrioV2', 'Cqos.Facts.GluePrioV1', 'Cqos.Props.C16s'],
         'facts': True,
         'theorems': ['Cqos.C07.tinv_step', 'Cqos.C07.tinv_run', 'Cqos.C07.c07_v2_only_then', 'Cqos.C07.c07_v1_graceful_only_then',
                      'Cqos.C07.stopped_false_v2', 'Cqos.C07.c07_no_error_calc', 'Cqos.C07.c07_no_error_recalc',
                      'Cqos.C15.c15_drain_progress', 'Cqos.C07.c07_prompt_step', 'Cqos.C07.c07_prompt',
-                     'Cqos.C07.c07_prompt_reachable', 'Cqos.C07.c07_prompt_unique', 'Cqos.C07.v2_static_run', 'Cqos.Facts.gluePrioV2', 'Cqos.Facts.gluePrioV1', 'Cqos.C01.c07_simple_v2'],
+                     'Cqos.C07.c07_prompt_reachable', 'Cqos.C07.c07_prompt_unique', 'Cqos.C07.v2_static_run', 'Cqos.Facts.gluePrioV2', 'Cqos.Facts.gluePrioV1', 'Cqos.C01.c07_simple_v2', 'Cqos.SimpleV1.c19_simple_completed'],
         'runs': [{'cmd': 'stepper', 'args': ['-family', 'terminate']}, {'cmd': 'stepper', 'args': ['-family', 'mixed']},
                  {'cmd': 'stepper', 'args': ['-family', 'dynamic']},
                  {'cmd': 'blackbox', 'args': ['-scenario', 'prio2,prio1,simple1']}],
